@@ -166,6 +166,16 @@ def run_obligation(prop: str, module: str, ob, known: list, workdir: str, seed: 
             break
         res.update(status="inconclusive", message=(r.get("message") or "")[:300] + f" after {r.get('paths', 0)} paths / {r.get('cpu_s', 0)}s cpu")
         break
+    # an inconclusive exploration does not hide a failure that a concrete run of the same harness
+    # already produced: it is a real input failing on the real code (reported as found by a
+    # concrete run, not by the solver)
+    if res.get("smoke_first_failure") and res["status"] in ("inconclusive", "nondeterministic"):
+        ff = res["smoke_first_failure"]
+        if ff.get("clause") not in open_known:
+            rp = _run_spec({**base, "mode": "replay", "script": ff.get("trace", []), "excluded": sorted(open_known)}, workdir, f"{ob.name}.smokereplay", 300)
+            res["replays"] += 1
+            if rp.get("ok") is False and rp.get("clause") == ff.get("clause"):
+                res.update(status="violation", violation={"property": prop, "obligation": ob.name, "module": module, "harness": ob.harness, "cfg": ob.cfg, "clause": ff.get("clause"), "detail": ff.get("detail"), "script": ff.get("trace", []), "notes": ff.get("notes"), "excluded": sorted(open_known), "found_by": "concrete random run of the harness (the symbolic exploration of this obligation was inconclusive: " + str(res.get("message", ""))[:120] + ")", "replayed": "concretely against /repo without CrossHair: reproduced"})
     # smoke failure that the exploration did not explain is a harness inconsistency
     if res.get("smoke_first_failure") and res["status"] == "discharged":
         ff = res["smoke_first_failure"]
